@@ -1,0 +1,253 @@
+//go:build verif
+
+// Contracts for the verification machinery in /verif (comment-only; compiled only with -tags verif).
+//
+// Layer L1: store accessors verified against the abstract store bea_store (beacon.Key -> stored bytes,
+// nil = absent) and the codec round trip; L2 keeper logic against the L1 contracts; L3 the message server.
+package keeper
+
+//@ ghost bea_store (Array beacon.Key (Slice Int))
+//@ kvstore bea_store bea_key bea_prefix bea_inprefix bea_keylt beacon.Key
+
+// ---------------------------------------------------------------- registrations
+
+//@ func Keeper.SetBeacon(ctx, beacon) (err)
+//@   props C07 C08 C09
+//@   modifies bea_store
+//@   ensures err == nil && bea_store == bcPut(old(bea_store), beacon)
+
+//@ func Keeper.IsBeaconRegistered(ctx, beaconID) (ok)
+//@   props C07 C08 C09
+//@   pure
+//@   ensures ok == bcHas(bea_store, beaconID)
+
+//@ func Keeper.GetBeacon(ctx, beaconID) (b, found)
+//@   props C07 C08 C09
+//@   pure
+//@   ensures found == bcHas(bea_store, beaconID)
+//@   ensures found ==> b == bcGet(bea_store, beaconID)
+//@   ensures !found ==> b.LastTimestampId == 0 && b.NumInState == 0 && b.FirstIdInState == 0 && b.BeaconId == 0 && b.Owner == ""
+
+//@ func Keeper.GetBeaconOwner(ctx, beaconID) (owner)
+//@   props C07 C08 C09 C13
+//@   pure
+//@   ensures bcHas(bea_store, beaconID) && validBech32(bcGet(bea_store, beaconID).Owner) ==> owner == addrOf(bcGet(bea_store, beaconID).Owner)
+//@   ensures !(bcHas(bea_store, beaconID) && validBech32(bcGet(bea_store, beaconID).Owner)) ==> len(owner) == 0
+
+//@ func Keeper.IsAuthorisedToRecord(ctx, beaconID, recorder) (ok)
+//@   props C07 C08 C09 C13
+//@   pure
+//@   requires 1 <= len(recorder)
+//@   ensures ok ==> bcHas(bea_store, beaconID) && validBech32(bcGet(bea_store, beaconID).Owner) && sameAddr(recorder, addrOf(bcGet(bea_store, beaconID).Owner))
+
+// ---------------------------------------------------------------- highest id
+
+//@ func Keeper.GetHighestBeaconID(ctx) (id, err)
+//@   props C09
+//@   pure
+//@   requires beaHighestSet(bea_store) ==> len(bea_store[kBHighest]) == 8
+//@   ensures (err == nil) == beaHighestSet(bea_store)
+//@   ensures err == nil ==> beaHighestIs(bea_store, id)
+
+//@ func Keeper.SetHighestBeaconID(ctx, beaconID)
+//@   props C09
+//@   modifies bea_store
+//@   ensures beaHighestIs(bea_store, beaconID)
+//@   ensures bea_store == old(bea_store)[kBHighest := bea_store[kBHighest]]
+
+// ---------------------------------------------------------------- storage limits
+
+//@ func Keeper.HasBeaconStorageLimit(ctx, beaconID) (ok)
+//@   props C08 C09
+//@   pure
+//@   ensures ok == blimHas(bea_store, beaconID)
+
+//@ func Keeper.GetBeaconStorageLimit(ctx, beaconID) (lim, found)
+//@   props C08 C09
+//@   pure
+//@   ensures found == blimHas(bea_store, beaconID)
+//@   ensures found ==> lim == unmarshalBLimit(bea_store[kBLimit(beaconID)])
+//@   ensures !found ==> lim.BeaconId == beaconID && lim.InStateLimit == 50000
+
+//@ func Keeper.SetBeaconStorageLimit(ctx, beaconId, limit) (err)
+//@   props C08 C09
+//@   modifies bea_store
+//@   ensures err == nil && bea_store == blimPut(old(bea_store), beaconId, limit)
+
+// ---------------------------------------------------------------- timestamps
+
+//@ func Keeper.SetBeaconTimestamp(ctx, beaconId, beaconTimestamp) (err)
+//@   props C07 C08
+//@   modifies bea_store
+//@   ensures err == nil && bea_store == tsPut(old(bea_store), beaconId, beaconTimestamp)
+
+//@ func Keeper.IsBeaconTimestampRecordedByID(ctx, beaconID, timestampID) (ok)
+//@   props C07 C08
+//@   pure
+//@   ensures ok == tsHas(bea_store, beaconID, timestampID)
+
+//@ func Keeper.GetBeaconTimestampByID(ctx, beaconID, timestampID) (b, found)
+//@   props C07 C08
+//@   pure
+//@   ensures found == tsHas(bea_store, beaconID, timestampID)
+//@   ensures found ==> b == tsGet(bea_store, beaconID, timestampID)
+
+//@ func Keeper.deleteBeaconTimestamp(ctx, beaconId, beaconTimestampId) (err)
+//@   props C07 C08
+//@   modifies bea_store
+//@   ensures err == nil
+//@   ensures tsHas(old(bea_store), beaconId, beaconTimestampId) ==> bea_store == tsDel(old(bea_store), beaconId, beaconTimestampId)
+//@   ensures !tsHas(old(bea_store), beaconId, beaconTimestampId) ==> bea_store == old(bea_store)
+
+// ---------------------------------------------------------------- parameters
+
+//@ func Keeper.GetParams(ctx) (params)
+//@   props C08 C09 C16 C06
+//@   pure
+//@   ensures beaParamsSet(bea_store) ==> params == beaParams(bea_store)
+
+//@ func Keeper.SetParams(ctx, params) (err)
+//@   props C16
+//@   modifies bea_store
+//@   ensures err == nil ==> bea_store == beaParamsPut(old(bea_store), params)
+//@   ensures err == nil ==> validDenom(params.Denom) && params.FeeRegister >= 1 && params.FeeRecord >= 1 && params.FeePurchaseStorage >= 1
+//@   ensures err == nil ==> params.DefaultStorageLimit >= 1 && params.MaxStorageLimit >= 1 && params.DefaultStorageLimit <= params.MaxStorageLimit
+//@   ensures err != nil ==> bea_store == old(bea_store)
+
+//@ func Keeper.GetParamDenom(ctx) (r)
+//@   props C06 C16
+//@   pure
+//@   ensures beaParamsSet(bea_store) ==> r == beaParams(bea_store).Denom
+//@ func Keeper.GetParamRegistrationFee(ctx) (r)
+//@   props C06 C16
+//@   pure
+//@   ensures beaParamsSet(bea_store) ==> r == beaParams(bea_store).FeeRegister
+//@ func Keeper.GetParamRecordFee(ctx) (r)
+//@   props C06 C16
+//@   pure
+//@   ensures beaParamsSet(bea_store) ==> r == beaParams(bea_store).FeeRecord
+//@ func Keeper.GetParamPurchaseStorageFee(ctx) (r)
+//@   props C06 C16
+//@   pure
+//@   ensures beaParamsSet(bea_store) ==> r == beaParams(bea_store).FeePurchaseStorage
+//@ func Keeper.GetParamDefaultStorageLimit(ctx) (r)
+//@   props C08 C09 C16
+//@   pure
+//@   ensures beaParamsSet(bea_store) ==> r == beaParams(bea_store).DefaultStorageLimit
+//@ func Keeper.GetParamMaxStorageLimit(ctx) (r)
+//@   props C08 C16
+//@   pure
+//@   ensures beaParamsSet(bea_store) ==> r == beaParams(bea_store).MaxStorageLimit
+
+// ================================================================ Layer L2
+
+//@ func Keeper.RecordNewBeaconTimestamp(ctx, beaconId, hash, submitTime) (tsId, deleted, err)
+//@   props C07 C08 C09
+//@   requires bcHas(bea_store, beaconId) && BEA_INV(bea_store, beaconId)
+//@   requires bcGet(bea_store, beaconId).LastTimestampId < 2^64 - 1
+//@   let b0 := bcGet(old(bea_store), beaconId)
+//@   let L := blimGet(old(bea_store), beaconId)
+//@   let rec := mkTs(b0.LastTimestampId + 1, submitTime, hash)
+//@   let b1 := bcGet(bea_store, beaconId)
+//@   modifies bea_store
+//@   nopanic
+//@   ensures @ok err == nil
+//@   ensures @consecutive_id tsId == b0.LastTimestampId + 1
+//@   ensures @no_prune b0.NumInState + 1 <= L ==> deleted == 0 && bea_store == bcPut(tsPut(old(bea_store), beaconId, rec), b1)
+//@   ensures @prune b0.NumInState + 1 > L ==> deleted == b0.FirstIdInState && deleted >= 1 && bea_store == bcPut(tsDel(tsPut(old(bea_store), beaconId, rec), beaconId, deleted), b1)
+//@   ensures @counters b1.NumInState == min(b0.NumInState + 1, L) && b1.LastTimestampId == tsId
+//@   ensures @identity bcSameIdentity(b1, b0)
+//@   ensures @inv BEA_INV(bea_store, beaconId)
+
+//@ func Keeper.RegisterNewBeacon(ctx, beacon) (id, err)
+//@   props C08 C09
+//@   requires beaHighestSet(bea_store) ==> len(bea_store[kBHighest]) == 8
+//@   requires beaParamsSet(bea_store)
+//@   requires 0 <= unixSecs(blockTime(ctx)) && unixSecs(blockTime(ctx)) < 2^63
+//@   let b1 := bcGet(bea_store, id)
+//@   modifies bea_store
+//@   ensures @needs_highest (err == nil) == beaHighestSet(old(bea_store))
+//@   ensures @fail_nochange err != nil ==> bea_store == old(bea_store)
+//@   ensures @id err == nil ==> beaHighestIs(old(bea_store), id) && beaHighestIs(bea_store, wrapu64(id + 1))
+//@   ensures @stored err == nil ==> bcHas(bea_store, id) && b1.BeaconId == id && b1.Moniker == beacon.Moniker && b1.Name == beacon.Name && b1.Owner == beacon.Owner
+//@   ensures @counters err == nil ==> b1.LastTimestampId == 0 && b1.NumInState == 0 && b1.FirstIdInState == 0 && b1.RegTime == unixSecs(blockTime(ctx))
+//@   ensures @limit err == nil ==> blimHas(bea_store, id) && blimGet(bea_store, id) == beaParams(old(bea_store)).DefaultStorageLimit
+//@   ensures @frame err == nil ==> bea_store == blimPut(bcPut(old(bea_store), b1), id, blimGet(bea_store, id))[kBHighest := bea_store[kBHighest]]
+
+//@ func Keeper.IncreaseInStateStorage(ctx, beaconId, amount) (err)
+//@   props C08
+//@   requires blimHas(bea_store, beaconId)
+//@   modifies bea_store
+//@   ensures err == nil && bea_store == blimPut(old(bea_store), beaconId, wrapu64(blimGet(old(bea_store), beaconId) + amount))
+
+//@ func Keeper.GetMaxPurchasableSlots(ctx, beaconId) (n)
+//@   props C08 C06
+//@   pure
+//@   requires beaParamsSet(bea_store)
+//@   ensures blimHas(bea_store, beaconId) ==> n == max(0, beaParams(bea_store).MaxStorageLimit - blimGet(bea_store, beaconId))
+//@   ensures !blimHas(bea_store, beaconId) ==> n == 0
+
+// ================================================================ Layer L3: message server
+
+//@ func msgServer.RecordBeaconTimestamp(goCtx, msg) (resp, err)
+//@   props C07 C08 C09 C13 C01
+//@   requires BEA_ALL(bea_store)
+//@   requires msg.SubmitTime != 0
+//@   requires bcHas(bea_store, msg.BeaconId) ==> bcGet(bea_store, msg.BeaconId).LastTimestampId < 2^64 - 1
+//@   let id := msg.BeaconId
+//@   let s0 := old(bea_store)
+//@   let b0 := bcGet(old(bea_store), msg.BeaconId)
+//@   let b1 := bcGet(bea_store, msg.BeaconId)
+//@   let rec := mkTs(b0.LastTimestampId + 1, msg.SubmitTime, msg.Hash)
+//@   modifies bea_store
+//@   ensures @rejected_changes_nothing err != nil ==> bea_store == old(bea_store)
+//@   ensures @owner_only err == nil ==> bcHas(s0, id) && validBech32(msg.Owner) && validBech32(b0.Owner) && sameAddr(addrOf(msg.Owner), addrOf(b0.Owner))
+//@   ensures @consecutive_ids err == nil ==> resp.TimestampId == b0.LastTimestampId + 1 && resp.BeaconId == id
+//@   ensures @recorded_exactly err == nil ==> tsHas(bea_store, id, resp.TimestampId) && tsGet(bea_store, id, resp.TimestampId) == rec
+//@   ensures @others_untouched err == nil ==> forall i uint64, t uint64 :: {bea_store[kTs(i, t)]} !(i == id && (t == b0.LastTimestampId + 1 || t == b0.FirstIdInState)) ==> bea_store[kTs(i, t)] == s0[kTs(i, t)]
+//@   ensures @prune_only_when_full err == nil && b0.NumInState + 1 <= blimGet(s0, id) ==> bea_store[kTs(id, b0.FirstIdInState)] == s0[kTs(id, b0.FirstIdInState)] || b0.FirstIdInState == b0.LastTimestampId + 1
+//@   ensures @prune_first_when_full err == nil && b0.NumInState + 1 > blimGet(s0, id) ==> !tsHas(bea_store, id, b0.FirstIdInState)
+//@   ensures @counters err == nil ==> b1.NumInState == min(b0.NumInState + 1, blimGet(s0, id)) && b1.LastTimestampId == b0.LastTimestampId + 1
+//@   ensures @identity_immutable err == nil ==> bcSameIdentity(b1, b0)
+//@   ensures @frame err == nil ==> forall k beacon.Key :: {bea_store[k]} !(k == kBeacon(id) || k == kTs(id, b0.LastTimestampId + 1) || k == kTs(id, b0.FirstIdInState)) ==> bea_store[k] == s0[k]
+//@   ensures @inv BEA_ALL(bea_store)
+
+//@ func msgServer.RegisterBeacon(goCtx, msg) (resp, err)
+//@   props C08 C09 C13
+//@   requires BEA_ALL(bea_store) && BEA_FRESH(bea_store) && beaParamsSet(bea_store)
+//@   requires beaParams(bea_store).DefaultStorageLimit >= 1
+//@   requires 0 <= unixSecs(blockTime(goCtx)) && unixSecs(blockTime(goCtx)) < 2^63
+//@   requires beaHighestSet(bea_store) ==> u64dec(bea_store[kBHighest]) < 2^64 - 1
+//@   let s0 := old(bea_store)
+//@   let id := resp.BeaconId
+//@   let b1 := bcGet(bea_store, resp.BeaconId)
+//@   modifies bea_store
+//@   ensures @rejected_changes_nothing err != nil ==> bea_store == s0
+//@   ensures @next_unused_id err == nil ==> beaHighestIs(s0, id) && !bcHas(s0, id) && beaHighestIs(bea_store, id + 1)
+//@   ensures @stored_as_submitted err == nil ==> bcHas(bea_store, id) && b1.BeaconId == id && b1.Moniker == msg.Moniker && b1.Name == msg.Name
+//@   ensures @owner_is_signer err == nil ==> validBech32(msg.Owner) && validBech32(b1.Owner) && sameAddr(addrOf(b1.Owner), addrOf(msg.Owner))
+//@   ensures @counters_zero err == nil ==> b1.LastTimestampId == 0 && b1.NumInState == 0 && b1.FirstIdInState == 0
+//@   ensures @limit_is_default err == nil ==> blimHas(bea_store, id) && blimGet(bea_store, id) == beaParams(s0).DefaultStorageLimit
+//@   ensures @frame err == nil ==> forall k beacon.Key :: {bea_store[k]} !(k == kBeacon(id) || k == kBLimit(id) || k == kBHighest) ==> bea_store[k] == s0[k]
+//@   ensures @inv BEA_ALL(bea_store) && BEA_FRESH(bea_store)
+
+//@ func msgServer.PurchaseBeaconStateStorage(goCtx, msg) (resp, err)
+//@   props C08 C09 C13
+//@   requires BEA_ALL(bea_store) && beaParamsSet(bea_store)
+//@   let id := msg.BeaconId
+//@   let s0 := old(bea_store)
+//@   let b0 := bcGet(old(bea_store), msg.BeaconId)
+//@   modifies bea_store
+//@   ensures @rejected_changes_nothing err != nil ==> bea_store == s0
+//@   ensures @owner_only err == nil ==> bcHas(s0, id) && validBech32(msg.Owner) && validBech32(b0.Owner) && sameAddr(addrOf(msg.Owner), addrOf(b0.Owner))
+//@   ensures @limit_exact err == nil ==> bea_store == blimPut(s0, id, blimGet(s0, id) + msg.Number) && msg.Number >= 1
+//@   ensures @never_above_max err == nil ==> blimGet(bea_store, id) <= beaParams(s0).MaxStorageLimit
+//@   ensures @response err == nil ==> resp.BeaconId == id && resp.NumberPurchased == msg.Number && resp.NumCanPurchase == max(0, beaParams(s0).MaxStorageLimit - blimGet(bea_store, id))
+//@   ensures @inv BEA_ALL(bea_store)
+
+//@ func msgServer.UpdateParams(goCtx, req) (resp, err)
+//@   props C13 C16
+//@   modifies bea_store
+//@   ensures @authority_only err == nil ==> req.Authority == k.Keeper.authority
+//@   ensures @rejected_changes_nothing err != nil ==> bea_store == old(bea_store)
+//@   ensures @valid_and_stored err == nil ==> bea_store == beaParamsPut(old(bea_store), req.Params) && validDenom(req.Params.Denom) && req.Params.FeeRegister >= 1 && req.Params.FeeRecord >= 1 && req.Params.FeePurchaseStorage >= 1 && req.Params.DefaultStorageLimit >= 1 && req.Params.DefaultStorageLimit <= req.Params.MaxStorageLimit
